@@ -7,6 +7,9 @@ CONSTANTS NB = 5
  BugAddMiddle = TRUE
  BugTxLoopVar = FALSE
  BugConfirmRace = FALSE
+ MaxBatch = 0
+ NBatch = 0
+ BugBatchBreak = FALSE
 INVARIANTS Converges
 PROPERTY Forward
 CHECK_DEADLOCK FALSE
